@@ -343,6 +343,16 @@ pub struct BinaryRun {
 /// a short grace period to catch trailing output), or - inconclusive - after
 /// `timeout_s` seconds of wall clock. The process is then stopped.
 pub fn run_binary_until<F: Fn(&[u8]) -> bool>(bin: &str, rom_path: &str, done: F, timeout_s: u64) -> BinaryRun {
+  // a machine that is busy with something else must not turn into an
+  // "inconclusive": one more attempt with four times the bound
+  let r = run_binary_once(bin, rom_path, &done, timeout_s);
+  if r.timed_out {
+    return run_binary_once(bin, rom_path, &done, timeout_s * 4);
+  }
+  r
+}
+
+fn run_binary_once<F: Fn(&[u8]) -> bool>(bin: &str, rom_path: &str, done: &F, timeout_s: u64) -> BinaryRun {
   use std::io::Read;
   use std::os::unix::process::ExitStatusExt;
   use std::process::{Command, Stdio};
